@@ -13,15 +13,16 @@ from . import core
 
 
 class Worker:
-    def __init__(self, scratch):
+    def __init__(self, scratch, binary=None):
         self.scratch = scratch
+        self.binary = binary or core.harness_bin("rfv-run")
         self.p = None
         self.buf = b""
         self.start()
 
     def start(self):
         env = core.run_env({"RFV_SCRATCH": str(self.scratch), "RUST_BACKTRACE": "0"})
-        self.p = subprocess.Popen([core.harness_bin("rfv-run")], stdin=subprocess.PIPE,
+        self.p = subprocess.Popen([self.binary], stdin=subprocess.PIPE,
                                   stdout=subprocess.PIPE, stderr=subprocess.DEVNULL, env=env)
         self.buf = b""
 
@@ -66,7 +67,7 @@ class Worker:
                 self.buf += chunk
 
 
-def run_jobs(jobs, scratch, workers=14, timeout=20):
+def run_jobs(jobs, scratch, workers=14, timeout=20, binary=None):
     """Run all jobs; returns results in job order."""
     q = queue.Queue()
     for i, j in enumerate(jobs):
@@ -74,7 +75,7 @@ def run_jobs(jobs, scratch, workers=14, timeout=20):
     results = [None] * len(jobs)
 
     def loop():
-        w = Worker(scratch)
+        w = Worker(scratch, binary)
         while True:
             try:
                 i, j = q.get_nowait()
